@@ -104,6 +104,58 @@ def call_corpus(tier, seed):
     return inputs
 
 
+def wide_transfer(res, tier, seed):
+    """fractional_transfer on tallies far beyond TLC's exact range (a few thousand to a few million voters, fine-grained rational tallies as they
+    arise after an earlier surplus): Transfers!FractionalResult read in exact Python fractions -- every continuing ranking carries exactly
+    weight * (tally - threshold) / tally, ballots not led by the winner keep their weight (declared in evidence as python_compared)."""
+    from ..common import load_votekit, quiet, bag_json
+    load_votekit()
+    from votekit import Ballot, PreferenceProfile
+    import votekit.elections as VE
+    rng = random.Random(3131 + seed)
+    cands = ["A", "B", "C", "D"]
+    rk = D.untied_rankings(cands)
+    n = 0
+    for _ in range(150 if tier == "quick" else 3000):
+        scale = rng.choice([1009, 10007, 100003, 1000003, 3000017])
+        nb = rng.randint(2, 5)
+        ballots = []
+        for _ in range(nb):
+            w = F(rng.randint(1, 9) * scale + rng.randint(0, 50), rng.choice([1, 1, 3, 7, 4000037]))
+            ballots.append((rng.choice(rk), w))
+        winner = rng.choice(cands)
+        tally = sum((w for r, w in ballots if r[0] == [winner]), F(0))
+        if tally < 2:
+            continue
+        thr = rng.randint(1, int(tally))
+        n += 1
+        bl = [Ballot(ranking=tuple(frozenset(p) for p in r), weight=w) for r, w in ballots]
+        want = {}
+        for r, w in ballots:
+            rest = tuple(tuple(p) for p in r if p != [winner])
+            if not rest:
+                continue
+            v = w * (tally - thr) / tally if r[0] == [winner] else w
+            if v > 0:
+                want[rest] = want.get(rest, F(0)) + v
+        try:
+            with quiet():
+                out = VE.fractional_transfer(winner, tally, bl if rng.random() < 0.5 else tuple(bl), thr)
+        except Exception as ex:  # noqa
+            res.violation("fractional:WideTallies(py):Error", "%s on a tally of %s" % (type(ex).__name__, tally), {"ballots": [[r, str(w)] for r, w in ballots], "winner": winner, "thr": thr})
+            continue
+        got = {}
+        for b in out:
+            k = tuple(tuple(sorted(s)) for s in b.ranking)
+            got[k] = got.get(k, F(0)) + b.weight
+        if got != want:
+            res.violation("fractional:WideTallies(py)", "fractional_transfer on a tally of %s, threshold %d: the returned weights are not weight * (tally - threshold) / tally exactly" % (tally, thr),
+                          {"ballots": [[r, str(w)] for r, w in ballots], "winner": winner, "thr": thr})
+    res.notes["python_compared"] = n
+    res.notes["python_compared_note"] = ("fractional_transfer on tallies beyond TLC's 32-bit exact range is compared with the exact-fraction reading of "
+                                         "Transfers!FractionalResult")
+
+
 def run(tier, seed, replay=None):
     res = Result(PID, tier, seed)
     scratch(PID)
@@ -141,6 +193,8 @@ def run(tier, seed, replay=None):
         if F(*t["tally"]) > t["thr"] or any(len(b["r"]) == 1 and b["r"][0] == [t["winner"]] for b in t["bag"]):
             res.nontrivial.add(json.dumps([t["op"], t["bag"], t["winner"], t["thr"]]))
     judge_calls(res, PID, "TransferTrace", traces, what="transfer call disagrees with the statement", inexact_is_violation=False)
+    if not replay:
+        wide_transfer(res, tier, seed)
     etr = EL.record_corpus(elects)
     EL.judge(res, PID, etr, os.path.join(OUT, PID, "traces"), nontrivial=lambda t: len(t["events"]) >= 2)
     res.notes["transfer_calls"] = len(calls)
